@@ -2,12 +2,15 @@
   Driver of C03.  Requests (all carry "m" and "U" = the matrix compute_unitary() reported, exact):
     {"op":"bs",  "state":[[tags of mode 0],…], "outs":[state,…]}
     {"op":"sv",  "terms":[{"coef":[re,im],"state":…},…], "outs":[…]}
-    {"op":"svd", "members":[{"w":"1/3","terms":[…]},…], "prec":"1/1000000", "minp":"0"}
+    {"op":"svd", "members":[{"w":"1/3","terms":[…]},…], "prec":"1/1000000", "minp":"0"[, "bound":true]}
+        with "bound": the exactly computed error bound of Props/C03 section 10 (`errD`, `errTot`, `errNormAt`) and
+        whether the hypotheses of `probsSvd_precision_bound` hold for this input
     {"op":"dm",  "members":[…un-tagged…], "nmax":n}
   everything else falls through to the shared specification driver (`handleSim`).
 -/
 import PercevalModel.SimProto
 import PercevalModel.Model.C03
+import PercevalModel.Model.C03Prec
 
 open Lean PM PM.Proto PM.Fock PM.Dist PM.SimSpec PM.SimProto PM.C03
 
@@ -106,14 +109,34 @@ def handleE (j : Json) : Except String Json := do
       let full := probsSVD U (ms.map fun mb => (mb.w, mb.terms))
       let keptW := (pre.kept.map (·.w)).sum
       let totW := (ms.map (·.w)).sum
-      return Json.mkObj [("probs", distToJson (probsSvd U prec minp ms)),
+      let raw := rawSvd U prec minp ms
+      let wantBound := (j.getObjValAs? Bool "bound").toOption.getD false
+      let boundFields : List (String × Json) :=
+        if wantBound then
+          let ed := errD U prec minp ms
+          let eTot := mass ed
+          let rawM := mass raw
+          let specN := normalize full
+          let keys := ((compress full).map (·.1) ++ (compress ed).map (·.1)).dedup
+          let hyps := decide (0 ≤ prec) && ms.all (fun mb => decide (0 ≤ mb.w)) &&
+            ms.all (fun mb => mb.terms.all fun t => t.coef != 0 && t.groups.all (·.length == m)) &&
+            mass full != 0 && rawM != 0
+          let dropped := preDropped prec minp ms
+          [("errAt", distToJson (keys.map fun t => (t, get ed t))),
+           ("errNorm", distToJson (keys.map fun t => (t, (get ed t + get specN t * eTot) / rawM))),
+           ("errTot", ratToJson eTot), ("rawMass", ratToJson rawM), ("fullMass", ratToJson (mass full)),
+           ("tv2", ratToJson (2 * eTot / rawM)),
+           ("trimMass", ratToJson (mixMass (probsSV U) dropped)), ("dropped", toJson dropped.length),
+           ("hyps", toJson hyps)]
+        else []
+      return Json.mkObj (boundFields ++ [("probs", distToJson (normalize raw)),
         ("spec", distToJson (normalize full)), ("full", distToJson full),
         ("keptExact", distToJson (normalize (probsSVD U (pre.kept.map fun mb => (mb.w, mb.terms))))),
         ("theta", ratToJson pre.θ), ("superposed", toJson pre.superposed),
         ("kept", toJson pre.kept.length), ("keptTerms", toJson (pre.kept.map (·.terms.length))),
         ("keptW", toJson (pre.kept.map fun mb => ratToJson mb.w)),
         ("cutMass", ratToJson (totW - keptW)), ("totalW", ratToJson totW),
-        ("members", Json.arr (ms.map fun mb => distToJson (probsSV U mb.terms)).toArray)]
+        ("members", Json.arr (ms.map fun mb => distToJson (probsSV U mb.terms)).toArray)])
     | "dm" =>
       let ⟨m, U⟩ ← matOfJson j
       let ms ← membersOf m (← j.getObjVal? "members")
